@@ -18,7 +18,7 @@ RULE = ("fault enumeration of response frames that pass validation: every valid 
         "state report in the same exchange (good+bad, bad+good, bad+good+bad). Oracle: nothing escapes the operation; in a mixed "
         "exchange the good frame is applied and the device is online. non-trivial = every case")
 ASSUMPTIONS = ["all frames of a mixed exchange arrive before the library resumes (same virtual instant)"]
-DRIVERS = ["refresh", "apply", "get_capabilities", "toggle_display", "start_self_clean"]
+DRIVERS = ["refresh", "apply", "get_capabilities", "toggle_display", "start_self_clean", "refresh-props"]
 KINDS = ["state", "caps", "props", "energy", "humidity"]
 
 
@@ -110,7 +110,7 @@ def shards(tier):
             out.append((g, d, "alone"))
     for g in ("trunc", "fields"):
         for mix in ("good+bad", "bad+good", "bad+good+bad"):
-            for d in ("refresh", "apply"):
+            for d in ("refresh", "apply", "refresh-props"):
                 out.append((g, d, mix))
     for g in ("trunc", "fields", "ids-a", "ids-b"):
         for mix in ("good+bad", "bad+good", "bad+good+bad"):
@@ -118,11 +118,53 @@ def shards(tier):
     return out
 
 
+def snapshot_props(ac):
+    d = dict(ac.to_dict())
+    d.pop("online")
+    d.pop("supported")
+    d["indoor_humidity"] = ac.indoor_humidity
+    return d
+
+
+def execute_sequential(frame: bytes, mix: str):
+    """The frames of a mixed exchange delivered one per exchange, in the same order (refresh of a capability-aware client)."""
+    dev_model = rich_device()
+    cur = {"what": "honest"}
+
+    def script(req):
+        if cur["what"] == "bad":
+            req.send(req.dev.wrap(req.conn, frame))
+        else:
+            for p in req.responses:
+                req.send(p)
+
+    rig = Rig(2, ac=dev_model, script=script)
+    ac = rig.client()
+
+    async def drive():
+        await ac.get_capabilities()
+        for what in {"good+bad": ["good", "bad"], "bad+good": ["bad", "good"], "bad+good+bad": ["bad", "good", "bad"]}[mix]:
+            cur["what"] = what
+            await ac.refresh()
+
+    try:
+        out = rig.run(drive())
+        return out, snapshot_props(ac)
+    finally:
+        rig.close()
+
+
 def execute(frame: bytes, driver: str, mix: str):
     dev_model = rich_device()
     good_state = dict(dev_model.state)
 
+    armed = {"on": driver != "refresh-props"}
+
     def script(req):
+        if not armed["on"]:
+            for p in req.responses:
+                req.send(p)
+            return
         good = req.responses[0] if req.responses else None
         bad = req.dev.wrap(req.conn, frame)
         seq = {"alone": [bad], "good+bad": [good, bad], "bad+good": [bad, good], "bad+good+bad": [bad, good, bad]}[mix]
@@ -145,6 +187,11 @@ def execute(frame: bytes, driver: str, mix: str):
             ac.eco, ac.sleep, ac.freeze_protection, ac.purifier, ac.target_humidity = True, True, True, True, 55
             ac.horizontal_swing_angle = AC.SwingAngle.POS_3     # forces a property write as well
             await ac.apply()
+        elif driver == "refresh-props":
+            # a client that knows the capabilities also queries energy, humidity and properties on refresh
+            await ac.get_capabilities()
+            armed["on"] = True
+            await ac.refresh()
         elif driver == "get_capabilities":
             await ac.get_capabilities()
         elif driver == "toggle_display":
@@ -178,20 +225,35 @@ def run_shard(shard, tier) -> Stats:
         prob = None
         if out[0] != "ok":
             prob = f"{driver} raised {type(out[1]).__name__}"
-        elif mix != "alone" and driver in ("refresh", "apply"):
+        elif mix != "alone" and driver in ("refresh", "apply", "refresh-props"):
             # the good state report of the same exchange must have been applied
             want = client_view_of(devmodel.state)
             d = diff_view(want, ac)
             # a bad frame that happens to be a decodable state/property report may legitimately overwrite fields
             decodable_state = len(frame) > 11 and frame[10] == 0xC0
-            if driver == "refresh" and not ac.online:
+            if driver.startswith("refresh") and not ac.online:
                 prob = "good frame of a mixed exchange not delivered (offline)"
             elif d and not decodable_state:
                 prob = "good frame of a mixed exchange not applied: " + ",".join(d)
+            elif driver == "refresh-props" and not (len(frame) > 11 and frame[10] in (0xB0, 0xB1, 0xC1, 0xC0)):
+                # property, energy and humidity answers of the same refresh must have been applied as well
+                got = (int(ac.horizontal_swing_angle), int(ac.vertical_swing_angle), ac.indoor_humidity, ac.total_energy_usage)
+                want_p = (devmodel.props[0x000A][0], devmodel.props[0x0009][0], devmodel.humidity_now, 567.92)
+                if got != want_p:
+                    prob = f"good property/energy/humidity frames of a mixed exchange not applied: {got} != {want_p}"
         elif caps_base is not None:
             decodable_caps = len(frame) > 11 and frame[10] == 0xB5 and frame[9] == 0x03
             if not decodable_caps and caps_snapshot(ac) != caps_base:
                 prob = "good capabilities response of a mixed exchange not applied"
+        if prob is None and driver == "refresh-props" and mix != "alone" and len(frame) > 11 and frame[10] in (0xB0, 0xB1):
+            # response objects are independent: a refresh answered with mixed frames ends in the same state as the same frames
+            # delivered one refresh each, in order.  Only for property-family bad frames: they touch nothing but property
+            # attributes, whose final value is decided by the last (property) exchange in both deliveries.
+            o2, seq = execute_sequential(frame, mix)
+            if o2[0] == "ok" and snapshot_props(ac) != seq:
+                mixed = snapshot_props(ac)
+                ch = [k for k in seq if seq[k] != mixed[k]]
+                prob = "mixed exchange differs from the same frames delivered one exchange each: " + ",".join(ch[:4])
         if prob:
             what = label.split(" ")[0] + " " + (label.split(" ")[1] if label.startswith(("trunc", "cut", "oversized")) else "")
             st.violation(f"{what.strip()} [{mix}]: {prob.split(':')[0]}", case, "operation returns; good frames applied", prob,
